@@ -59,6 +59,9 @@ fn main() {
         i += 1;
     }
     util::install_panic_hook();
+    if let Some(b) = p.extra.get("budget").and_then(|b| b.parse::<u64>().ok()) {
+        util::WORK_BUDGET.store(b, std::sync::atomic::Ordering::Relaxed);
+    }
     let t0 = std::time::Instant::now();
     let report: Report = match prop.as_str() {
         "SELFTEST" => {
@@ -83,6 +86,7 @@ fn main() {
         "C13" => mon::c13::run(&p, mon::c13::Which::C13),
         "C02" => mon::c13::run(&p, mon::c13::Which::C02),
         "C15" => mon::c15::run(&p),
+        "C18" => mon::c18::run(&p),
         _ => {
             eprintln!("unknown property {}", prop);
             std::process::exit(2)
